@@ -66,10 +66,10 @@ RootWrites(s, st) ==
 Swallows(st) == st = "models"
 
 \* does the diff stage find a difference?  (_show_diffs: only *.py present on both sides)
-\* "partial" = files missing on the old side: not compared.  As the code behaves, the temp tree ALSO differs from an
+\* "partial" = files missing on the old side (ignored before fix 2894bf8, a difference since).  As the code behaves, the temp tree ALSO differs from an
 \* up-to-date existing tree when post-processing is on (ruff sorts imports differently without the ancestor __init__.py
 \* files) and when the core is external (the rich client __init__.py is written only on the direct path).
-DiffFinds(s) == s.existing = "different" \/ s.pp \/ s.core # "embedded"
+DiffFinds(s) == s.existing \in {"different", "partial"} \/ s.pp \/ s.core # "embedded"    \* since fix 2894bf8 missing / non-.py files count
 
 Init ==
   /\ sc \in Scenarios
